@@ -54,6 +54,10 @@ func genWritePath(c *fw.Ctx, r *rng.R, root *model.Node) string {
 				// now and then the padding is long: block sizes and their neighbours
 				bigGap = true
 				idx = n + []int{15, 16, 17, 31, 32, 33, 63, 64, 65, 127, 128, 129, 255, 256, 257, 511, 512, 513, 1023, 1024, 1025, 2047, 2048, 2049, 4096}[r.Intn(25)]
+				if r.Chance(1, 12) {
+					idx = n + []int{65535, 65536, 65537, 70000, 131073}[r.Intn(5)] // an index is an index, however far away
+					c.Count("writes_with_very_long_padding")
+				}
 				c.Count("writes_with_long_padding")
 			}
 			if cur != nil && idx < n {
